@@ -2,6 +2,8 @@
 #define _GNU_SOURCE
 #include "core.h"
 #include <string.h>
+#include <signal.h>
+#include <sys/time.h>
 #include <stdlib.h>
 
 int hash_cmd(const cmd *c) __attribute__((weak));
@@ -53,6 +55,14 @@ par_worker(void *a)
         return NULL;
 }
 
+static volatile unsigned long storm_hits;
+static void
+storm_handler(int sig)
+{
+        (void) sig;
+        storm_hits++;
+}
+
 int
 main(int argc, char **argv)
 {
@@ -67,6 +77,22 @@ main(int argc, char **argv)
         while (cmd_read(f, &c)) {
                 if (!strcmp(c.t[0], "hidden")) {
                         vc_hidden_seed = (int) cmd_i(&c, 1);
+                        continue;
+                }
+                if (!strcmp(c.t[0], "storm")) {
+                        /* asynchronous signals at a high rate for the rest of the run (C20): the kernel builds each signal
+                         * frame on the interrupted stack below the 128-byte red zone, i.e. anything a callee keeps further
+                         * below its stack pointer is overwritten at unpredictable instants.  The handler does nothing. */
+                        struct sigaction sa;
+                        memset(&sa, 0, sizeof sa);
+                        sa.sa_handler = storm_handler;
+                        sa.sa_flags = SA_RESTART;
+                        sigaction(SIGALRM, &sa, NULL);
+                        struct itimerval it;
+                        it.it_interval.tv_sec = 0;
+                        it.it_interval.tv_usec = (suseconds_t) cmd_i(&c, 1);
+                        it.it_value = it.it_interval;
+                        setitimer(ITIMER_REAL, &it, NULL);
                         continue;
                 }
                 if (!strcmp(c.t[0], "dump")) {
